@@ -364,30 +364,33 @@ impl Check for C04 {
             PhaseSpec { name: "tokens", cases: tier.pick(80_000, 1_600_000), max_bytes: 160, exhaustive: false },
             PhaseSpec { name: "mutate", cases: tier.pick(60_000, 1_200_000), max_bytes: 64, exhaustive: false },
             PhaseSpec { name: "nesting", cases: tier.pick(3_000, 60_000), max_bytes: 300, exhaustive: false },
+            // unclosed nestings of every depth followed by another item (quick: every 5th case)
+            PhaseSpec { name: "unwind", cases: crate::textgen::unwind_count() / tier.pick(5, 1), max_bytes: 0, exhaustive: true },
             PhaseSpec { name: "artifacts", cases: tier.pick(4_000, 80_000), max_bytes: 48, exhaustive: false },
             PhaseSpec { name: "prog", cases: tier.pick(40_000, 600_000), max_bytes: 500, exhaustive: false },
             PhaseSpec { name: "illprog", cases: tier.pick(20_000, 300_000), max_bytes: 420, exhaustive: false },
         ]
     }
-    fn make(&self, phase: &str, _index: u64, bytes: &[u8], ctx: &mut Ctx) -> Case {
+    fn make(&self, phase: &str, index: u64, bytes: &[u8], ctx: &mut Ctx) -> Case {
         let mut d = Dec::new(bytes);
         match phase {
             "unicode" => Case::new(json!({"text": textgen::unicode_soup(&mut d)})),
             "tokens" => Case::new(json!({"text": textgen::token_soup(&mut d)})),
             "mutate" => Case::new(json!({"text": textgen::mutate_corpus(&mut d, corpus::sources())})),
             "nesting" => Case::new(json!({"text": nested(&mut d)})),
+            "unwind" => Case::new(json!({"text": crate::textgen::unwind_text(if ctx.tier == Tier::Thorough { index } else { index * 5 + ctx.seed % 5 })})),
             "prog" | "illprog" => {
                 // every shape, including the ones other checks exclude because of open findings
                 let mut open = crate::gen::build::NoGates;
-                let mut cfg = crate::gen::build::GenCfg::full(if _index % 7 == 0 { 150 } else { 50 });
-                cfg.hostile_names = _index % 3 == 0;
+                let mut cfg = crate::gen::build::GenCfg::full(if index % 7 == 0 { 150 } else { 50 });
+                cfg.hostile_names = index % 3 == 0;
                 cfg.focus = [
                     crate::gen::build::Focus::None,
                     crate::gen::build::Focus::Generics,
                     crate::gen::build::Focus::Closures,
                     crate::gen::build::Focus::Effects,
                     crate::gen::build::Focus::Scopes,
-                ][(_index % 5) as usize];
+                ][(index % 5) as usize];
                 if phase == "prog" {
                     let p = crate::gen::build::gen_program(&mut d, cfg, &mut open);
                     Case::new(json!({"text": crate::gen::render::render(&p), "prog": true}))
